@@ -450,8 +450,20 @@ impl World {
             let me = &mut *self;
             guarded(|| {
                 let _t = seam::track();
-                with_arena!(slot.arena, ar => match ar.mark_debt() {
+                with_arena_root!(slot.arena, ar => match ar.mark_debt() {
                     Some(m) => Some(m.finalize(|fc, root| crate::events::finalize_body(me, a, fc, &root.body, p, &mut src))),
+                    None => None,
+                }, ar => match ar.mark_debt() {
+                    Some(m) => Some(m.finalize(|fc, _root| {
+                        let rb = {
+                            let _p = seam::pause();
+                            crate::payload::empty_root_body(crate::tok::ROOT_SITE + a as u32)
+                        };
+                        let r = crate::events::finalize_body(me, a, fc, &rb, p, &mut src);
+                        let _p = seam::pause();
+                        drop(rb);
+                        r
+                    })),
                     None => None,
                 })
             })
@@ -748,7 +760,7 @@ impl World {
             Event::AdjustDebt { a, x } => self.ev_adjust_debt(*a, *x),
             Event::ArmTraceFault { at, repeat } => tok::arm_trace_fault(*at, *repeat),
             Event::ArmDropFault { nth } => tok::arm_drop_fault(*nth),
-            Event::NewArena { a, root_set, ops, p, fail, bare } => self.ev_new_arena(*a, *root_set, ops, *p, *fail, *bare, g),
+            Event::NewArena { a, root_set, ops, p, fail, bare, static_root } => self.ev_new_arena(*a, *root_set, ops, *p, *fail, *bare, *static_root, g),
             Event::DropArena { a } => self.ev_drop_arena(*a),
         }
         // isolation frame (C20) and per-event metrics oracles
